@@ -7,30 +7,6 @@ Open Scope Z_scope.
 
 Definition Res_ok (R : res) : Prop := Inv_ledger R /\ Dict_ok R.
 
-Lemma total_allocate : forall R r c q R' o, r_allocate R r c q = (R', o) -> r_total R' = r_total R.
-Proof.
-  intros R r c q R' o H. unfold r_allocate in H. destruct (_ <? _); [inversion H; reflexivity|].
-  destruct (alloc_loop _ _ _). inversion H. reflexivity.
-Qed.
-Lemma total_alloc_seq : forall req R c R' o, alloc_seq R req c = (R', o) -> r_total R' = r_total R.
-Proof.
-  induction req as [|[r q] req IH]; intros R c R' o H; cbn [alloc_seq] in H; [inversion H; reflexivity|].
-  destruct (r_allocate R r c q) as [R1 [u|e]] eqn:Ea.
-  - rewrite (IH _ _ _ _ H). eapply total_allocate; eauto.
-  - inversion H; subst. eapply total_allocate; eauto.
-Qed.
-Lemma total_allocate_multiple : forall R req c R' o, r_allocate_multiple R req c = (R', o) -> r_total R' = r_total R.
-Proof.
-  intros R req c R' o H. unfold r_allocate_multiple in H. destruct (existsb _ _); [inversion H; reflexivity|].
-  destruct (alloc_seq R req c) as [R1 [u|e]] eqn:Es; inversion H; subst.
-  - eapply total_alloc_seq; eauto.
-  - unfold r_rollback. destruct (al_find _ _); cbn [r_total]; eapply total_alloc_seq; eauto.
-Qed.
-Lemma total_deallocate : forall R c R' o, r_deallocate R c = (R', o) -> r_total R' = r_total R.
-Proof. intros R c R' o H. unfold r_deallocate in H. destruct (al_find _ _); inversion H; reflexivity. Qed.
-Lemma total_get_allocated : forall R c, r_total (fst (r_get_allocated_resources R c)) = r_total R.
-Proof. intros R c. unfold r_get_allocated_resources. destruct (al_find _ _); reflexivity. Qed.
-
 Lemma res_ok_allocate_multiple : forall R req c R' o, Res_ok R -> r_allocate_multiple R req c = (R', o) -> Res_ok R'.
 Proof. intros R req c R' o [A B] H. split; [eapply inv_allocate_multiple|eapply dict_allocate_multiple]; eauto. Qed.
 Lemma res_ok_deallocate : forall R c R' o, Res_ok R -> r_deallocate R c = (R', o) -> Res_ok R'.
@@ -49,7 +25,8 @@ Section Lift.
 
   Lemma lift_place : forall t s w w' o, okreq (s_req s) -> Q (w_res w) -> w_place t s w = (w', o) -> Q (w_res w').
   Proof.
-    intros t s w w' o Hs HQ H. unfold w_place in H. destruct (s_is_batch s).
+    intros t s w w' o Hs HQ H. unfold w_place in H. destruct (zmem t (w_placed w)); [inversion H; subst; exact HQ|].
+    destruct (s_is_batch s).
     - destruct (zfind (s_id s) (w_batches w)) as [mem|].
       + destruct (_ <? _); inversion H; subst; exact HQ.
       + destruct (s_bsize s <? 1); [inversion H; subst; exact HQ|].
@@ -167,7 +144,7 @@ Section Lift.
   Lemma lift_pop : forall P o, pop_req_ok o -> WsQ (p_workers P) -> WsQ (p_workers (fst (p_opstep P o))).
   Proof.
     intros P [t strats es wid|t|p s wid|p wid|dt] Ho HQ; cbn [p_opstep]; cbn in Ho.
-    - unfold p_place. destruct (p_choose strats es wid P) as [[[w [s|]]|]|e] eqn:Ec; cbn [fst]; try exact HQ.
+    - unfold p_place. destruct (zmem t (p_placed P)); [exact HQ|]. destruct (p_choose strats es wid P) as [[[w [s|]]|]|e] eqn:Ec; cbn [fst]; try exact HQ.
       destruct (pw_find w (p_workers P)) as [W|] eqn:Ef; [|exact HQ].
       destruct Ho as [Hs He]. pose proof (p_choose_ok _ _ _ _ _ _ Hs He Ec) as Hok.
       destruct (w_place t s W) as [W' [u|e]] eqn:Ep; cbn [fst p_workers]; apply pw_set_Q; try exact HQ;
@@ -176,7 +153,8 @@ Section Lift.
       destruct (pw_find w (p_workers P)) as [W|] eqn:Ef; [|exact HQ].
       destruct (w_remove t W) as [W' [u|e]] eqn:Ep; cbn [fst p_workers]; apply pw_set_Q; try exact HQ;
         eapply lift_remove; try exact Ep; eapply pw_find_Q; eauto.
-    - unfold p_load. destruct (p_each (w_load p s) (p_ids wid P) (p_workers P)) as [ws r] eqn:E. destruct r; cbn [fst p_workers];
+    - unfold p_load. destruct (p_precheck s (p_ids wid P) (p_workers P)); [|exact HQ].
+      destruct (p_each (w_load p s) (p_ids wid P) (p_workers P)) as [ws r] eqn:E. destruct r; cbn [fst p_workers];
         eapply lift_p_each; try exact E; try exact HQ; intros W W' o' HW EW; eapply lift_load; eauto.
     - unfold p_evict. destruct (p_each (w_evict p) (p_ids wid P) (p_workers P)) as [ws r] eqn:E. destruct r; cbn [fst p_workers];
         eapply lift_p_each; try exact E; try exact HQ; intros W W' o' HW EW; eapply lift_evict; eauto.
@@ -226,6 +204,17 @@ Proof.
   cbn. apply nonneg_new. exact Hv.
 Qed.
 
+(* since a negative quantity is refused (/repo 84d7416): for ALL histories *)
+Lemma nonneg_am_any : forall R req c R' o, True -> Nonneg R -> r_allocate_multiple R req c = (R', o) -> Nonneg R'.
+Proof. intros R req c R' o _. apply nonneg_allocate_multiple_any. Qed.
+Theorem worker_nonneg_all : forall id v ops, nonneg_vec v -> nonneg_vec (r_avail (w_res (w_run ops (w_new id v)))).
+Proof.
+  intros id v ops Hv. apply nn_avail.
+  apply (lift_w_run Nonneg (fun _ => True) nonneg_am_any nonneg_de nonneg_get_allocated).
+  - rewrite Forall_forall. intros [ | | | | | ] _; exact Logic.I.
+  - cbn. apply nonneg_new. exact Hv.
+Qed.
+
 (* ---- and for every history on a pool: every worker of the pool ---- *)
 Definition pool_vectors_ok (P : pool) : Prop := Forall (fun W => NoDup (map fst (r_total (w_res W)))) (p_workers P).
 Definition Ledger_self (R0 : res -> Prop) (R : res) : Prop := Res_ok R /\ R0 R.
@@ -261,4 +250,15 @@ Lemma pw_set_ids : forall W ws, map w_id (pw_set W ws) = map w_id ws.
 Proof.
   intros W. induction ws as [|W' ws IH]; cbn [pw_set map]; [reflexivity|].
   destruct (w_id W' =? w_id W) eqn:E; cbn [map]; [apply Z.eqb_eq in E; congruence|rewrite IH; reflexivity].
+Qed.
+Theorem pool_nonneg_all : forall ops P,
+  Forall (fun W => Nonneg (w_res W)) (p_workers P) ->
+  Forall (fun W => nonneg_vec (r_avail (w_res W))) (p_workers (p_run ops P)).
+Proof.
+  intros ops P H.
+  assert (X : WsQ Nonneg (p_workers (p_run ops P))).
+  { apply (lift_p_run Nonneg (fun _ => True) nonneg_am_any nonneg_de); [|exact H].
+    rewrite Forall_forall. intros [t strats es wid| | | | ] _; unfold pop_req_ok, strat_ok; auto.
+    split; [rewrite Forall_forall; intros; exact Logic.I|destruct es; exact Logic.I]. }
+  unfold WsQ in X. rewrite Forall_forall in *. intros W HW. apply nn_avail. auto.
 Qed.
